@@ -20,6 +20,7 @@ import (
 	"sync"
 
 	"go.nanomsg.org/mangos/v3"
+	"go.nanomsg.org/mangos/v3/internal/verifyield"
 	"go.nanomsg.org/mangos/v3/transport"
 )
 
@@ -137,6 +138,7 @@ func (p *pipe) Close() error {
 	p.closeOnce.Do(func() {
 		// Close the underlying transport pipe first.
 		_ = p.p.Close()
+		verifyield.Point("core.pipe.Close.afterTranClose")
 
 		// Deregister it from the socket.  This will also arrange
 		// for asynchronously running the event callback, and
@@ -147,6 +149,7 @@ func (p *pipe) Close() error {
 			p.s.remPipe(p)
 		}
 		p.lock.Unlock()
+		verifyield.Point("core.pipe.Close.afterRem")
 
 		if p.d != nil {
 			// Inform the dialer so that it will redial.
